@@ -828,6 +828,10 @@ def discharge_call(fx, f, s, tainted_params):
             r = cursor_range(fx, f, s)
             if r:
                 return 'D-CURSOR', r
+        if k2 in ('index', 'swap', 'remove') and len(ops) == 2:
+            r = _position_of_same(fx, f, ops[0], ops[1])
+            if r:
+                return 'D-POS', r
         if k2 in ('index', 'swap', 'remove') and len(ops) >= 2:
             la = len_atom_for(z, ops[0])
             if la is None:
@@ -974,6 +978,54 @@ def _current_pos(f, s, b):
 
 def _pname(p):
     return p.get('f') if isinstance(p, dict) else p
+
+
+def _position_of_same(fx, f, coll, idx):
+    """v[i] where i is the Some-payload of position()/rposition() over v.iter() - found directly or by a crate-local finder
+    method of the same receiver - and this function does not shrink v: the index is below len"""
+    place = _place_text(coll)
+    i = unwrap_value(strip(idx))
+    alts = i[1] if isinstance(i, tuple) and i[0] == 'phi' else (i,)
+    seen = False
+    for a in alts:
+        a = unwrap_value(strip(a))
+        if isinstance(a, tuple) and a[0] == 'agg' and a[2] == 'None':
+            continue
+        if isinstance(a, tuple) and a[0] == 'agg' and a[2] == 'Some' and a[3]:
+            a = unwrap_value(strip(a[3][0]))
+        if not (isinstance(a, tuple) and a[0] == 'call'):
+            return None
+        finder_field = None
+        if a[1] in fx.fns and a[2]:
+            g = fx.fns[a[1]]
+            r = unwrap_value(strip(g.expr_of_local(0)))
+            if isinstance(r, tuple) and r[0] == 'call' and (r[1].endswith('::rposition') or r[1].endswith('::position')) and r[2]:
+                src = expr_str(r[2][0], -20)
+                m = re.search(r'\(\*arg1\)\.(\w+)', src)
+                if m and 'iter' in src and '::rev' not in src and 'skip' not in src:
+                    finder_field = m.group(1)
+                    recv = _place_text(a[2][0])
+        elif (a[1].endswith('::rposition') or a[1].endswith('::position')) and a[2]:
+            src = expr_str(a[2][0], -20)
+            if 'iter' in src and place in src and 'skip' not in src and '::rev' not in src:
+                seen = True
+                continue
+            return None
+        if finder_field is None:
+            return None
+        # the finder searched  <recv>.<field>  and we index  <recv>.<field>
+        if not place.endswith('.' + finder_field):
+            return None
+        seen = True
+    if not seen:
+        return None
+    # nothing in this function removes elements of that collection
+    for bb, t in f.calls():
+        c = callee_of(t) or ''
+        if c.split('::')[-1] in ('pop', 'truncate', 'remove', 'swap_remove', 'clear', 'drain', 'split_off') and t['args'] and \
+                place in _place_text(f.expr_of_operand(t['args'][0])):
+            return None
+    return 'the index was found by position()/rposition() over the same collection, which this function does not shrink'
 
 
 def _is_string_target(f, x):
